@@ -51,6 +51,29 @@ pub fn record(arm: u64, a: usize, b: usize, c: usize) {
     });
 }
 
+thread_local! {
+    static NAMES: std::cell::RefCell<Vec<Vec<Vec<u8>>>> = const { std::cell::RefCell::new(Vec::new()) };
+}
+
+/// Record the labels of a name that is about to be written (only while step recording is armed);
+/// returns its index in the list returned by `take_names`.
+pub fn record_name(name: &Name<'_>) -> usize {
+    let armed = TRACE.with(|t| t.borrow().is_some());
+    if !armed {
+        return 0;
+    }
+    NAMES.with(|n| {
+        let mut n = n.borrow_mut();
+        n.push(name.get_labels().iter().map(|l| l.verif_bytes().to_vec()).collect());
+        n.len()
+    })
+}
+
+/// The names recorded since the last call.
+pub fn take_names() -> Vec<Vec<Vec<u8>>> {
+    NAMES.with(|n| std::mem::take(&mut *n.borrow_mut()))
+}
+
 /// Decode one domain name starting at `at` in `buf`, returning the name and the
 /// cursor position at which parsing of the enclosing element would resume.
 pub fn parse_name(buf: &[u8], at: usize) -> crate::Result<(Name<'_>, usize)> {
